@@ -12,10 +12,10 @@ type qeGen struct {
 	r  *vRand
 	ds *qeDataset
 	// knobs
-	pFilter, pStats, pSort, pLimit, pAuth, pBackends, pWrapped, pGrouped int // percent
-	maxDepth                                                   int
-	tables                                                     []string
-	hist                                                       map[string]int
+	pFilter, pStats, pSort, pLimit, pAuth, pBackends, pWrapped, pGrouped, pIndexLeaf int // percent
+	maxDepth                                                                         int
+	tables                                                                           []string
+	hist                                                                             map[string]int
 }
 
 var qeOps = []string{"=", "!=", "=~", "!=~", "~", "!~", "~~", "!~~", "<", "<=", ">", ">=", "!>=", "like", "unlike", "ilike", "iunlike"}
@@ -150,7 +150,11 @@ func (g *qeGen) regexFrom(v string) string {
 	lo, hi := r.intn(len(runes)), 0
 	hi = lo + 1 + r.intn(len(runes)-lo)
 	part := string(runes[lo:hi])
-	switch r.intn(14) {
+	switch r.intn(16) {
+	case 14:
+		return "^" + qeSwapCase(v) + "$" // anchored literal in another case (~~ must still find it)
+	case 15:
+		return "^" + qeSwapCase(part)
 	case 0:
 		return part // plain substring (may contain a dot: the documented heuristic)
 	case 1:
@@ -192,8 +196,59 @@ func (g *qeGen) colType(table, col string) DataType {
 	return c.DataType
 }
 
+// indexLeaf returns a filter term of a shape the index pre-selection understands
+// (name / host_name / groups / host_groups / primary key with = =~ ~ ~~ >=), "" if the table has none
+func (g *qeGen) indexLeaf(table string) string {
+	r := g.r
+	pick := func(col string, ops []string) string {
+		vals := g.dataValues(table, col)
+		v := vPick(r, []string{"nothing", "Everything", "alpha"})
+		if len(vals) > 0 && r.chance(5, 6) {
+			v = vPick(r, vals)
+		}
+		op := vPick(r, ops)
+		switch {
+		case r.chance(1, 5):
+			v = qeSwapCase(v)
+		case (op == "~" || op == "~~") && r.chance(1, 2):
+			v = g.regexFrom(v)
+		}
+		g.count("indexleaf:" + col + op)
+
+		return fmt.Sprintf("%s %s %s", col, op, v)
+	}
+	switch table {
+	case "hosts":
+		if r.chance(1, 2) {
+			return pick("name", []string{"=", "=", "=~", "~~", "~"})
+		}
+
+		return pick("groups", []string{">=", ">=", "~", "~~"})
+	case "services":
+		switch r.intn(3) {
+		case 0:
+			return pick("host_name", []string{"=", "=", "~", "~~", "=~"})
+		case 1:
+			return pick("host_groups", []string{">=", ">=", "~", "~~"})
+		default:
+			return pick("groups", []string{">=", ">=", "~", "~~"})
+		}
+	case "hostgroups", "servicegroups", "contacts", "contactgroups", "commands", "timeperiods":
+		return pick("name", []string{"=", "=", "=~"})
+	case "comments", "downtimes":
+		return pick("id", []string{"=", "="})
+	}
+
+	return ""
+}
+
 func (g *qeGen) leaf(table string) string {
 	r := g.r
+	if r.intn(100) < g.pIndexLeaf {
+		if l := g.indexLeaf(table); l != "" {
+			return l
+		}
+	}
 	cols := qeQueryCols[table]
 	col := vPick(r, cols)
 	dt := g.colType(table, col)
